@@ -109,3 +109,10 @@ func ShapedDomains() []string {
 		" ", "CORP ", " CORP", "BUILTIN", "NT AUTHORITY", "localhost", "127.0.0.1", "-", "*", "null",
 	}
 }
+
+// CaseSpecials: letters whose upper-, title- and lower-case forms differ from one another in
+// unusual ways (digraphs), leave their script block (Kelvin, Ohm, Angstrom signs, Georgian) or
+// change encoded length (dotted/dotless i, long s, sharp s).
+func CaseSpecials() []string {
+	return []string{"ǆ", "ǅ", "Ǆ", "ǈemal", "ǋ", "ǲ", "Ǳ", "ქართული", "ᲥᲐᲠᲗᲣᲚᲘ", "ıi", "İI", "ſtudent", "µ", "ẞß", "Σς", "ᾳ", "ŉ", "Ÿÿ", "ﬁ", "Kelvin", "Ωhm", "Ångstrom"}
+}
